@@ -75,9 +75,11 @@ func (w sendWait[T]) Free(t *sched.Task) bool {
 	}
 	return w.c.hand == nil
 }
-func (w sendWait[T]) Name() string { return fmt.Sprintf("chan#%d (send)", w.c.id) }
+func (w sendWait[T]) Name() string            { return fmt.Sprintf("chan#%d (send)", w.c.id) }
 func (w handWait[T]) Free(t *sched.Task) bool { return w.c.taken || w.c.closed }
-func (w handWait[T]) Name() string            { return fmt.Sprintf("chan#%d (send, waiting for a receiver)", w.c.id) }
+func (w handWait[T]) Name() string {
+	return fmt.Sprintf("chan#%d (send, waiting for a receiver)", w.c.id)
+}
 func (w recvWait[T]) Free(t *sched.Task) bool { return w.c.recvReady() }
 func (w recvWait[T]) Name() string            { return fmt.Sprintf("chan#%d (receive)", w.c.id) }
 func (forever) Free(t *sched.Task) bool       { return false }
@@ -267,10 +269,20 @@ func (c *Chan[T]) CloseFromTimer() {
 }
 
 // Len is len(c); Cap is cap(c).
-func (c *Chan[T]) Len() int { return len(c.buf) }
+func (c *Chan[T]) Len() int {
+	if c == nil {
+		return 0 // len of a nil channel
+	}
+	return len(c.buf)
+}
 
 // Cap is cap(c).
-func (c *Chan[T]) Cap() int { return c.capa }
+func (c *Chan[T]) Cap() int {
+	if c == nil {
+		return 0
+	}
+	return c.capa
+}
 
 // Selected returns what the select statement received from c.
 func (c *Chan[T]) Selected() (T, bool) { return c.selV, c.selOK }
@@ -280,13 +292,13 @@ func (c *Chan[T]) Selected1() T { return c.selV }
 
 // Case is one communication clause of a select statement.
 type Case struct {
-	ready func() bool
-	do    func(s *sched.Sim)
-	id    int
-	nilCh bool
+	ready     func() bool
+	do        func(s *sched.Sim)
+	id        int
+	nilCh     bool
 	unbufSend bool
-	prep  func(s *sched.Sim)
-	wait  func(d int)
+	prep      func(s *sched.Sim)
+	wait      func(d int)
 }
 
 // RecvCase is `case ... <-c`.
@@ -308,9 +320,9 @@ func SendCase[T any](c *Chan[T], v T) Case {
 		return Case{nilCh: true}
 	}
 	return Case{
-		prep:  func(s *sched.Sim) { c.sync(s) },
-		ready: c.sendReady,
-		do:    func(s *sched.Sim) { c.doSend(s, v) },
+		prep:      func(s *sched.Sim) { c.sync(s) },
+		ready:     c.sendReady,
+		do:        func(s *sched.Sim) { c.doSend(s, v) },
 		unbufSend: c.capa == 0,
 	}
 }
